@@ -733,3 +733,76 @@ def oracle_cutoffs(src, ops, tail):
         if op.nodes:
             prev = op
     return None
+
+
+# ---------------------------------------------------------------- C20: memoised functions
+def oracle_memo(src, ops, tail):
+    """C20 on a trace with dumps.  For every call of a memoised function from top level: if the node
+    last returned for the key is still allocated (the dump before the call lists it as live) the call
+    returns that node and the underlying function does not run; if it is gone (or the key is new) the
+    function runs.  A node the program still holds a handle to is never recomputed by a call from
+    inside a closure either.  Nodes the function creates at top level belong to the scope in which
+    weak_memoize_fn was called (top).  Values and validity of everything observed are checked by the
+    value oracle."""
+    why = oracle_values(src, ops, tail, check_frame=False)
+    if why:
+        return why
+    dynamic = any("memonew" in l and not l.startswith("memonew") for l in src)
+    table = {}           # (m, key) -> rank | "?" (changed by a call we could not see the result of)
+    handle_rank = []     # per node handle: rank or None; dropped handles -> None
+    prev_nodes = {}
+    for op in ops:
+        if op.idx >= len(src):
+            break
+        line = src[op.idx]
+        word = line.split()[0]
+        if op.result.startswith("panic"):
+            if "InvalidScope" in op.result and not dynamic:
+                return f"op {op.idx} `{line}`: {op.result} although every memoised function was created at top level"
+            break
+        memofns = [tuple(int(x) for x in e.split()[1:3]) for e in op.events if e.startswith("memofn")]
+        held = {r for r in handle_rank if r is not None}
+        if word == "memocall":
+            m, k = int(line.split()[1]), int(line.split()[2])
+            r = int(op.result.split()[1])
+            prev = table.get((m, k))
+            ran = (m, k) in memofns
+            if memofns.count((m, k)) > 1:
+                return f"op {op.idx} `{line}`: the underlying function ran {memofns.count((m, k))} times for one call"
+            if prev != "?":
+                alive = prev is not None and prev_nodes.get(prev) is not None
+                if alive and (ran or r != prev):
+                    return (f"op {op.idx} `{line}`: node {prev} returned earlier for this key is still allocated, but the call "
+                            f"{'ran the underlying function' if ran else ''} and returned node {r}")
+                if not alive and not ran:
+                    return (f"op {op.idx} `{line}`: no live node for this key (previous: {prev}) but the underlying function "
+                            f"did not run; returned node {r}")
+                if not alive and prev is not None and r == prev:
+                    return f"op {op.idx} `{line}`: returned the dead node {prev}"
+            for mk in memofns:
+                if mk != (m, k):
+                    if table.get(mk) not in (None, "?") and table[mk] in held:
+                        return f"op {op.idx} `{line}`: underlying function ran for {mk} although node {table[mk]} is held by the program"
+                    table[mk] = "?"
+            table[(m, k)] = r
+            if ran and not dynamic and op.nodes:
+                for rank, n in op.nodes.items():
+                    if n is not None and rank not in prev_nodes and n["scope"] != "T":
+                        return (f"op {op.idx} `{line}`: node {rank} created by the memoised function at top level has scope "
+                                f"{n['scope']} instead of the scope weak_memoize_fn was called in (top)")
+        else:
+            for mk in memofns:
+                if table.get(mk) not in (None, "?") and table[mk] in held:
+                    return (f"op {op.idx} `{line}`: underlying function ran for {mk} although node {table[mk]} "
+                            "returned earlier is still held by the program")
+                table[mk] = "?"
+        # handle table
+        if op.result.startswith("node "):
+            handle_rank.append(int(op.result.split()[1]))
+        elif word == "dropnode":
+            h = int(line.split()[1])
+            if h < len(handle_rank):
+                handle_rank[h] = None
+        if op.nodes:
+            prev_nodes = op.nodes
+    return None
